@@ -362,7 +362,9 @@ func scenarioSparse(c *harness.Ctx) {
 				c.Fail("region.reload", "reopen", "load-error", "re-opening failed: %v", err)
 				return
 			}
-			if nr.VerifOffsets() != r.VerifOffsets() || nr.Timestamps != r.Timestamps {
+			no, ok1 := regionsim.OffsetsOf(nr)
+			ro, ok2 := regionsim.OffsetsOf(r)
+			if (ok1 && ok2 && no != ro) || nr.Timestamps != r.Timestamps {
 				c.Fail("region.reload", "fresh-load", "offsets", "offsets/timestamps after a fresh Load differ from the live region")
 				return
 			}
